@@ -255,8 +255,12 @@ def r_improve_loop(ctx):
         ctx.violation("R-IMPROVE-LOOP", where, "(ii) the model read in the loop is what is returned",
                       f"returns {sorted(ret_names)}, model stored in {sol}", srcline(mdl))
     # (iii) every way back to the next check passes through push() and the improvement bound
-    is_bound = lambda n: n.kind == "stmt" and C.has_call(n, "append_z3_assertion") and any(
-        isinstance(x, ast.Compare) and isinstance(x.ops[0], (ast.Lt, ast.Gt)) for x in ast.walk(n.ast))
+    strict = lambda e: isinstance(e, ast.Compare) and isinstance(e.ops[0], (ast.Lt, ast.Gt))
+    strict_names = {t_.id for n_ in g.nodes if n_.kind == "stmt" and isinstance(n_.ast, ast.Assign) and strict(n_.ast.value)
+                    for t_ in n_.ast.targets if isinstance(t_, ast.Name)}
+    is_bound = lambda n: n.kind == "stmt" and (C.has_call(n, "append_z3_assertion") or C.has_call(n, "_solver.add")) and any(
+        strict(x) or (isinstance(x, ast.Call) and any(isinstance(a_, ast.Name) and a_.id in strict_names for a_ in x.args))
+        for x in ast.walk(n.ast))
     for what, pred in (("push()", lambda n: n in pushes), ("the strict improvement bound", is_bound)):
         p = g.path_avoiding(mdl, chk, pred)
         if p is None:
@@ -505,6 +509,23 @@ PUBLIC = ("solve", "find_another_solution", "find_another_solution_for_variable"
           "initialize", "create_objective", "build_equivalent_weighted_objective", "append_z3_assertion", "check_sat", "build_solution")
 
 
+def _incremented(node):
+    """name of the counter when the CFG node is `k += 1` / `k = k + 1` / `k = 1 + k`, else None"""
+    if node.kind != "stmt":
+        return None
+    st = node.ast
+    one = lambda x: isinstance(x, ast.Constant) and x.value == 1 and not isinstance(x.value, bool)
+    if isinstance(st, ast.AugAssign) and isinstance(st.op, ast.Add) and one(st.value) and isinstance(st.target, ast.Name):
+        return st.target.id
+    if isinstance(st, ast.Assign) and len(st.targets) == 1 and isinstance(st.targets[0], ast.Name) and isinstance(st.value, ast.BinOp) \
+            and isinstance(st.value.op, ast.Add):
+        k = st.targets[0].id
+        l, r = st.value.left, st.value.right
+        if (isinstance(l, ast.Name) and l.id == k and one(r)) or (isinstance(r, ast.Name) and r.id == k and one(l)):
+            return k
+    return None
+
+
 def r_push_pop(ctx):
     """every scope pushed by a method is popped on all its exits (counter idiom or same-iteration pop)"""
     c = ctx.project.cls("SchedulingSolver")
@@ -521,10 +542,7 @@ def r_push_pop(ctx):
         ok_all = True
         for p in pushes:
             nxt = [m for m, lab in p.succ]
-            counter = None
-            if len(nxt) == 1 and nxt[0].kind == "stmt" and isinstance(nxt[0].ast, ast.AugAssign) and isinstance(nxt[0].ast.op, ast.Add) \
-                    and isinstance(nxt[0].ast.value, ast.Constant) and nxt[0].ast.value.value == 1 and isinstance(nxt[0].ast.target, ast.Name):
-                counter = nxt[0].ast.target.id
+            counter = _incremented(nxt[0]) if len(nxt) == 1 else None
             if counter is None:
                 # same-iteration idiom: a pop() on every path to the exit / loop head
                 path = g.path_avoiding(p, g.exit, lambda n: n in pops)
@@ -865,8 +883,7 @@ def _core_listing_complete(ctx, fn, core_names):
     body_ids = {id(x) for x in ast.walk(h.ast)}
     in_loop = lambda nd: nd.ast is not None and id(nd.ast) in body_ids and nd is not h
     tests = [t for t in g.find(lambda x: x.kind == "test") if in_loop(t)
-             and ast.unparse(t.ast.test).replace(" ", "").endswith("inself._map_boolrefs_to_constraints")
-             and "notin" not in ast.unparse(t.ast.test).replace(" ", "")]
+             and C.test_key(t)[0].endswith("inself._map_boolrefs_to_constraints")]
     if not tests:
         return      # the unguarded lookup is reported by the reader clause of R-CORE-MAP
     t = tests[0]
@@ -897,18 +914,18 @@ def _core_listing_complete(ctx, fn, core_names):
     def dedup_test(nd):
         if nd.kind != "test":
             return False
-        tt = nd.ast.test
-        return isinstance(tt, ast.Compare) and len(tt.ops) == 1 and isinstance(tt.ops[0], (ast.NotIn, ast.In)) \
+        tt, _ = C.strip_not(nd.ast.test)
+        return isinstance(tt, ast.Compare) and len(tt.ops) == 1 and isinstance(tt.ops[0], ast.In) \
             and ast.unparse(tt.comparators[0]) == lst
 
-    t_succ = [m for m, lab in t.succ if lab == "T"]
+    t_succ = [m for m, lab in t.succ if C.taken(t, lab, True)]
     path = None
     for m in t_succ:
         if m in appends:
             continue
+        # a dedup test may only be left through its "not yet listed" edge
         path = g.path_avoiding(m, h, lambda z: z in appends,
-                               edge_ok=lambda a, b, lab: not dedup_test(a) or
-                               (lab == "T" if isinstance(a.ast.test.ops[0], ast.NotIn) else lab == "F"))
+                               edge_ok=lambda a, b, lab: not dedup_test(a) or C.taken(a, lab, False))
         if path is not None:
             path = [m] + path if path[0] is not m else path
             break
@@ -1033,9 +1050,13 @@ def r_core_map(ctx):
                 par = node
                 guarded = False
                 while par is not None and par is not loop_:
+                    prev_ = par
                     par = getattr(par, "_parent", None)
-                    if isinstance(par, ast.If) and ast.unparse(par.test).replace(" ", "") == f"{label}inself._map_boolrefs_to_constraints".replace(" ", ""):
-                        guarded = True
+                    if isinstance(par, ast.If):
+                        core, pos = C.strip_not(par.test)
+                        if ast.unparse(core).replace(" ", "") == f"{label}inself._map_boolrefs_to_constraints".replace(" ", "") \
+                                and (prev_ in par.body if pos else prev_ in par.orelse):
+                            guarded = True
                 uses_elem = isinstance(loop_.target, ast.Name) and loop_.target.id in label
                 if guarded and uses_elem:
                     ok_reader = True
